@@ -187,7 +187,37 @@ def run(ctx, rep):
     rd = list(pr.calls('pread'))
     rep.rule('R-C05-7r', 'parity_read refuses positions beyond valid_size before reading', 1)
     rep.check(bool(chk) and bool(rd) and all(pr.bdominates(chk[0], r_.block) for r_ in rd), 'R-C05-7r', 'parity_read: valid_size test dominates pread', pr.file, '', function='parity_read', construct='valid_size gate')
-    rep.notes.append('R-C05-6 (hash-length agreement, F4) is not armed: suspected, not replayed')
+    # ---- R-C05-6 hash-length agreement: a past hash (CHG/DELETED block) was computed under the block length of ANOTHER file;
+    # a comparison that uses the current file's block size can fail for equal data, so a mismatch must be treated conservatively
+    rep.rule('R-C05-6', 'comparisons of recovered/read data with a possibly inherited past hash treat a mismatch conservatively', 2)
+    rp_ = P.fn('repair')
+    for bc in rp_.calls('blockcmp'):
+        gs = guards_of(rp_, bc)
+        chg = any(a.replace(' ', '') == '(block_state!=%d)' % st['CHG'] and not p for a, p in gs) or any(a.replace(' ', '') == '(block_state==%d)' % st['CHG'] and p for a, p in gs)
+        if not chg:
+            continue
+        brs = C04.cond_branches_on_call(rp_, bc)
+        ood = [i for i in rp_.all_insts() if i.op == 'store' and rp_.expr(i.ops[1]).endswith('.is_outofdate') and rp_.const_of(i.ops[0]) == 1]
+        okc = False
+        for br, ci in brs:
+            if ci.op == 'icmp' and rp_.const_of(ci.ops[1]) == 0:
+                mism = br.ops[2][1] if ci.pred == 'ne' else br.ops[1][1]
+                lp_ = rp_.loop_of(bc.block)
+                lat_ = [x for x in rp_.loops[lp_] if lp_ in rp_.succ[x]] if lp_ is not None else []
+                okc = C04.must_increment(rp_, mism, ood, lat_ + ([lp_] if lp_ is not None else []))
+        rep.check(okc, 'R-C05-6', 'repair: blockcmp of a CHG block against its inherited hash', bc.loc(),
+                  'mismatch marks the entry out of date' if okc else 'on a mismatch the recovered data is accepted as the up-to-date version (written back and reported fixed), although the inherited hash may have been computed over a different block length',
+                  function='repair', construct='blockcmp on CHG: mismatch accepted as up to date')
+    sy = P.fn('state_sync_process')
+    hc2 = [c for c in C04.hash_compares(sy) if 'failed[' not in ' '.join(sy.expr(o) for o in c.ops)]
+    okc = False
+    for c in hc2:
+        gs = guards_of(sy, c)
+        if any('hash_is_unique' in a and p for a, p in gs):
+            e = equal_edge_of(sy, c)
+            sets = [i for i in sy.all_insts() if i.op == 'store' and sy.expr(i.ops[1]) == '&parity_needs_to_be_updated' and sy.const_of(i.ops[0]) == 1]
+            okc = e is not None and any(sy.bdominates(e[2], x.block) for x in sets)
+    rep.check(okc, 'R-C05-6', 'state_sync_process: CHG block vs inherited hash: mismatch forces the parity update (conservative)', sy.file, '', function='state_sync_process', construct='sync CHG compare')
 
 
 def hash_provenance_rules(P, rep, rid, st):
